@@ -102,7 +102,11 @@ func TestVerifC10Vec(t *testing.T) {
 		case "place":
 			s, e := counter.VPlace(uint32(v.X[0]), uint32(v.X[1]), string(big[:v.X[2]]))
 			if int(s) != v.Y[0] || int(e) != v.Y[1] {
+				// not what the documented allocator gives: TLC decides whether the layout still allows it
 				mism(rt.M{"what": "place", "x": v.X, "want": v.Y, "got": []uint32{s, e}})
+				if bad <= 400 {
+					rt.Out(rt.M{"kind": "place", "from": "vector", "h": v.X[0], "limit": v.X[1], "ns": []int{v.X[2]}, "starts": []uint32{s}, "ends": []uint32{e}})
+				}
 			}
 		case "hash":
 			name := bytesOf(v.X)
@@ -643,10 +647,11 @@ func TestVerifC10Ops(t *testing.T) {
 		names[id] = b
 		ids[string(b)] = id
 	}
-	okB, steps, nbad := 0, 0, 0
+	okB, steps, nbad, ndiv := 0, 0, 0, 0
 	for _, bh := range in.Behaviours {
 		var w *world
 		good := true
+		diverged := false
 		fail := func(i int, st step, what string, extra rt.M) {
 			good = false
 			nbad++
@@ -695,13 +700,26 @@ func TestVerifC10Ops(t *testing.T) {
 				fail(i, st, "read", rt.M{"err": err.Error()})
 				break
 			}
+			// every replayed step is also an observed event for TLC (layout, content, monotonicity)
+			ev := rt.M{"kind": "ev", "op": st.Op, "a": st.A, "k": st.K, "m": st.M, "run": 1000000 + bh.ID, "problems": len(f.Problems),
+				"name": rt.M{"id": 0, "nlen": 0, "b": 0},
+				"obs":  rt.M{"metaLen": got.MetaLen, "hdrLen": got.HdrLen, "size": got.Size, "limit": got.Limit, "heads": headsJSON(got), "recs": got.Recs}}
+			if st.Op == "add" {
+				ev["name"] = rt.M{"id": st.ID, "nlen": len(names[st.ID]), "b": int(rt.V1Hash(string(names[st.ID])))}
+			}
+			rt.Out(ev)
 			if !f.WellFormed() {
 				fail(i, st, "layout", rt.M{"problems": f.Problems, "got": brief(got)})
 				break
 			}
-			if d := diffState(st.State, got); d != "" {
-				fail(i, st, d, rt.M{"want": brief(st.State), "got": brief(got)})
-				break
+			if d := diffState(st.State, got); d != "" && !diverged {
+				// the file is not the one the documented allocator would have produced; whether that
+				// breaks the layout is decided on the event above
+				diverged = true
+				ndiv++
+				if ndiv <= 10 {
+					rt.Out(rt.M{"kind": "divergence", "what": d, "id": bh.ID, "step": i, "op": st.Op, "a": st.A, "name": st.ID, "want": brief(st.State), "got": brief(got)})
+				}
 			}
 			if f.MetaRaw != w.meta {
 				fail(i, st, "meta", rt.M{"want": w.meta, "got": f.MetaRaw})
@@ -716,6 +734,9 @@ func TestVerifC10Ops(t *testing.T) {
 				break
 			}
 		}
+		if diverged {
+			good = false
+		}
 		if w != nil {
 			w.closeAll()
 		}
@@ -723,7 +744,7 @@ func TestVerifC10Ops(t *testing.T) {
 			okB++
 		}
 	}
-	rt.Out(rt.M{"kind": "summary", "behaviours": len(in.Behaviours), "matched": okB, "steps": steps})
+	rt.Out(rt.M{"kind": "summary", "behaviours": len(in.Behaviours), "matched": okB, "steps": steps, "diverged": ndiv})
 
 	// ---- code -> model: random runs ------------------------------------
 	nextID := 100000
